@@ -20,7 +20,7 @@ META = {
                    "on normal and exceptional exits, the controller waits only when something is outstanding (evaluated after the "
                    "flush), loop/await predicates as truth tables, counters paired with the collections they mirror, mirror maps "
                    "written together, host migration only to components with remaining weight, a holder's `available` record "
-                   "never downgraded, no busy worker offered a second task. Not decided: termination on every fair schedule, "
+                   "never downgraded, no busy worker offered a second task. Later rules: histories over the real functions (publish -> plan -> flush commands the queued fetch; precompute -> notify for a task reading one dataset twice), the assignment generator is neither left early nor wrapped in a truncating adaptor, initial state is a private copy of the preschedule. Not decided: termination on every fair schedule, "
                    "absence of KeyError over migration histories.",
     "assumptions": ["scheduler helpers are modelled as opaque calls where stated; loops bounded"],
 }
